@@ -361,7 +361,7 @@ class Engine:
                     hinted = self.solver.model()
                     if not prefer_dyadic or exact(hinted):
                         return hinted
-                    for k in (0, 3, 10):
+                    for k in (0, 3, 10, 30):
                         cons = [z3.IsInt(t * (2 ** k)) for t in terms if t.sort() == z3.RealSort()]
                         if self._check(*extra, *hs, *cons) == "sat":
                             return self.solver.model()
@@ -378,7 +378,7 @@ class Engine:
             else:
                 return None
             self.solver.set("timeout", min(300, old))
-            for k, more in ((0, small), (3, small), (10, [])):
+            for k, more in ((0, small), (3, small), (10, []), (30, small), (44, [])):
                 cons = [z3.IsInt(t * (2 ** k)) for t in terms if t.sort() == z3.RealSort()]
                 for hints in ((self.hints, []) if self.hints else ([],)):
                     if self._check(*extra, *cons, *more, *hints) == "sat":
